@@ -34,6 +34,8 @@ SimpleSides == {NoSide, PosSide(<<"T2">>), StructSide(0, <<Fld("Alpha", "T1", "n
 Descs == { [inp |-> i, out |-> o, errpos |-> e, special |-> ""] : i \in Sides, o \in SimpleSides, e \in {"none", "final"} }
          \cup { [inp |-> i, out |-> o, errpos |-> e, special |-> ""] : i \in SimpleSides, o \in Sides, e \in {"none", "final"} }
          \cup { [inp |-> NoSide, out |-> PosSide(ts), errpos |-> "middle", special |-> ""] : ts \in {<<"T1", "T2">>, <<"T2", "T1">>, <<"T1", "T1">>} }
+         \* two error results at the end: only the FINAL one is the function's error, the one before it is an ordinary type-only value
+         \cup { [inp |-> i, out |-> o, errpos |-> "double", special |-> ""] : i \in {NoSide, PosSide(<<"T1">>)}, o \in {NoSide, PosSide(<<"T1">>), PosSide(<<"T1", "T2">>), PosSide(<<"I1">>)} }
          \* a marker struct mixed with another parameter / result, the struct first ("mixedin", "mixedout") or last ("...2")
          \cup { [inp |-> i, out |-> NoSide, errpos |-> e, special |-> s] : i \in {StructSide(0, <<Fld("Alpha", "T1", "none")>>), StructSide(1, <<Fld("BETA", "T2", "ren")>>)},
                                                                           s \in {"mixedin", "mixedout", "mixedin2", "mixedout2"}, e \in {"none", "final"} }
@@ -73,7 +75,9 @@ Expected(d) ==
          [ok |-> TRUE, inp |-> [i \in 1..n |-> IF i = n THEN [vs[i] EXCEPT !.type = "[]" \o @] ELSE vs[i]], out |-> SideValues(d.out)]
     [] ~SideOK(d.inp) \/ ~SideOK(d.out) -> [ok |-> FALSE, inp |-> <<>>, out |-> <<>>]
     [] OTHER -> [ok |-> TRUE, inp |-> SideValues(d.inp),
-                 out |-> IF d.errpos = "middle" THEN WithMiddleErr(SideValues(d.out)) ELSE SideValues(d.out)]
+                 out |-> CASE d.errpos = "middle" -> WithMiddleErr(SideValues(d.out))
+                           [] d.errpos = "double" -> Append(SideValues(d.out), [name |-> "", type |-> "E", sub |-> ""])
+                           [] OTHER -> SideValues(d.out)]
 
 VARIABLES d, l, rec
 EnumInit == d \in Descs /\ l = 0 /\ rec = [ev |-> "none"]
